@@ -31,6 +31,20 @@ type isaState struct {
 	pc    int
 	outs  map[int][]uint64
 	err   string
+	// multi-processor model (channel.go): posted channel operations and the wait state of chw
+	mp      bool
+	pending []pendOp
+	waiting bool
+	waitReg int
+}
+
+// pendOp is a channel operation posted by wwr (send) / wrd (receive) and completed while the
+// processor waits in chw.
+type pendOp struct {
+	kind string // send | recv
+	reg  int
+	ch   int // local channel index
+	val  uint64
 }
 
 func parseAsm(asm string) ([]isaInstr, error) {
@@ -188,6 +202,34 @@ func (s *isaState) step() bool {
 		if s.regs[r1] == s.regs[r2] {
 			next = a
 		}
+	case "wwr", "wrd":
+		if !s.mp {
+			return bad()
+		}
+		r, ok := reg(0)
+		if !ok || len(in.args) < 2 {
+			return bad()
+		}
+		c, ok2 := idx(in.args[1], "ch")
+		if !ok2 {
+			return bad()
+		}
+		if in.op == "wwr" {
+			s.pending = append(s.pending, pendOp{kind: "send", reg: r, ch: c, val: s.regs[r]})
+		} else {
+			s.pending = append(s.pending, pendOp{kind: "recv", reg: r, ch: c})
+		}
+	case "chw":
+		// wait until one of the posted operations completed; the register receives its index
+		if !s.mp {
+			return bad()
+		}
+		r, ok := reg(0)
+		if !ok {
+			return bad()
+		}
+		s.waiting, s.waitReg = true, r
+		return true // the pc advances when the rendezvous happens
 	default:
 		return bad()
 	}
